@@ -28,7 +28,9 @@ Step ==
   /\ l <= Len(Rec) /\ l' = l + 1
   /\ LET e == Rec[l] IN
      IF ~e.built
-     THEN PrintT(<<"VIOL", ToJson([line |-> l, case |-> e.case, props |-> {"C10"}, why |-> "legal surface case does not compile", msg |-> e.msg])>>)
+     THEN \* a documented request (name / vis / struct_name on a legal configuration) that the derive does not honour at all:
+          \* the combination does not compile (C10) and the requested items do not exist under the requested names (C15)
+          PrintT(<<"VIOL", ToJson([line |-> l, case |-> e.case, props |-> {"C10", "C15"}, why |-> "legal surface case does not compile", msg |-> e.msg])>>)
      ELSE LET o == ObsOf(e) IN
           /\ (~SurfaceOK(e.c, o) =>
                 PrintT(<<"VIOL", ToJson([line |-> l, case |-> e.case, props |-> {"C15"}, why |-> Why(e.c, o), msg |-> ""])>>))
